@@ -83,7 +83,8 @@ def _merge_empty(case, fail):
 @classifier("pct-str-view-panics-on-ill-formed-utf8")
 def _pct_panic(case, fail):
     return (case.get("k") == "pct" and case.get("utf8") is False and "panic" in fail
-            and fail.get("what") in ("chars", "len", "decode", "illformed.eq_str"))
+            and "pct-str" in str(fail.get("panic"))
+            and fail.get("what", "").split(".")[-1] in ("chars", "len", "decode", "eq_str"))
 
 
 def _has_overlong(b):
